@@ -24,6 +24,7 @@ type Node struct {
 	Name    string // operator / identifier / field
 	Args    []*Node
 	Binders []Binder
+	Triggers [][]*Node // quantifiers: explicit trigger sets  forall x :: {t1, t2} {t3} body
 }
 
 type Binder struct{ Name, Type string }
@@ -108,7 +109,7 @@ func lex(src string) ([]tok, error) {
 				}
 			}
 			if !matched {
-				if strings.ContainsRune("+-*/%&|^!<>()[].,:", c) {
+				if strings.ContainsRune("+-*/%&|^!<>()[].,:{}", c) {
 					ts = append(ts, tok{"op", string(c)})
 					i++
 				} else {
@@ -187,8 +188,21 @@ func (p *parser) expr() *Node {
 			}
 		}
 		p.expect("::")
+		var trigs [][]*Node
+		for p.isOp("{") {
+			p.p++
+			var set []*Node
+			for {
+				set = append(set, p.or())
+				if !p.accept(",") {
+					break
+				}
+			}
+			p.expect("}")
+			trigs = append(trigs, set)
+		}
 		body := p.expr()
-		return &Node{Op: op, Binders: bs, Args: []*Node{body}}
+		return &Node{Op: op, Binders: bs, Args: []*Node{body}, Triggers: trigs}
 	}
 	return p.iff()
 }
